@@ -16,13 +16,15 @@ Inductive write :=
 | WSigs (round : tok) (s : sigstore)       (* state.Set(signatures_<round>) *)
 | WSend (m : out_msg)                      (* storage.Send *)
 | WSkip (b : bool)                         (* volatile flag (not durable) *)
-| WSrc (src : tok) (tasks : list mts).     (* ghost *)
+| WSrc (round src : tok) (tasks : list mts).   (* ghost *)
 
 Fixpoint aput {A} (l : list (tok * A)) (k : tok) (v : A) : list (tok * A) :=
   match l with
   | [] => [(k, v)]
   | (j, b) :: r => if N.eqb j k then (j, v) :: r else (j, b) :: aput r k v
   end.
+Fixpoint tget' {A} (q : list (tok * A)) (i : tok) : option A :=
+  match q with [] => None | (j, a) :: r => if N.eqb j i then Some a else tget' r i end.
 
 Definition apply_write (st : nstate) (w : write) : nstate :=
   match w with
@@ -44,9 +46,11 @@ Definition apply_write (st : nstate) (w : write) : nstate :=
   | WSkip b => {| ns_user := ns_user st; ns_key := ns_key st; ns_rounds := ns_rounds st; ns_ops := ns_ops st;
                   ns_deleted := ns_deleted st; ns_sigs := ns_sigs st; ns_board := ns_board st;
                   ns_skip := b; ns_srcs := ns_srcs st |}
-  | WSrc s t => {| ns_user := ns_user st; ns_key := ns_key st; ns_rounds := ns_rounds st; ns_ops := ns_ops st;
-                   ns_deleted := ns_deleted st; ns_sigs := ns_sigs st; ns_board := ns_board st;
-                   ns_skip := ns_skip st; ns_srcs := aput (ns_srcs st) s t |}
+  | WSrc r s t => {| ns_user := ns_user st; ns_key := ns_key st; ns_rounds := ns_rounds st; ns_ops := ns_ops st;
+                     ns_deleted := ns_deleted st; ns_sigs := ns_sigs st; ns_board := ns_board st;
+                     ns_skip := ns_skip st;
+                     ns_srcs := aput (ns_srcs st) r
+                                     (aput (match tget' (ns_srcs st) r with Some m => m | None => [] end) s t) |}
   end.
 
 (* a handler in progress: current state and the writes issued so far *)
@@ -114,8 +118,6 @@ Fixpoint add_entry (l : list rsig) (s : rsig) : list rsig :=
   | [] => [s]
   | x :: r => if N.eqb (rs_user x) (rs_user s) then s :: r else x :: add_entry r s
   end.
-Fixpoint tget' {A} (q : list (tok * A)) (i : tok) : option A :=
-  match q with [] => None | (j, a) :: r => if N.eqb j i then Some a else tget' r i end.
 Definition add_sig (store : sigstore) (s : rsig) : sigstore :=
   let batch := match tget' store (rs_batch s) with Some b => b | None => [] end in
   let entries := match tget' batch (rs_msgid s) with Some e => e | None => [] end in
@@ -198,7 +200,7 @@ Fixpoint last_task (tasks : list mts) (id : tok) (found : option mts) : option m
 
 Definition reconstruct (st : nstate) (round : tok) (p : payload) (batch src : tok)
            (parts : list (Z * (tok * list (tok * tok)))) : option (list rsig) :=
-  match tget' (ns_srcs st) src, p_dkg p with
+  match (match tget' (ns_srcs st) round with Some m => tget' m src | None => None end), p_dkg p with
   | Some tasks, Some dk =>
       let groups := group_signs parts [] in
       let one (g : tok * list tok) : option rsig :=
@@ -265,7 +267,7 @@ Definition pm_prop (m : message) (req : request) (h : hs) (i4 : instance) (op : 
     if String.eqb (m_event m) ev_sgn_start then
       match m_tasks m, req with
       | Some tasks, RStart batch _ _ _ src =>
-          match save_signatures (emit h (WSrc src tasks))
+          match save_signatures (emit h (WSrc (m_round m) src tasks))
                   (map (fun t => {| rs_file := mt_file t; rs_batch := batch; rs_msgid := mt_id t;
                                     rs_payload := mt_payload t; rs_sig := 0%N;
                                     rs_user := m_sender m; rs_round := m_round m |}) tasks) with
@@ -518,7 +520,7 @@ Inductive ninput :=
 
 (* durable writes (calls of state.Set / storage.Send); WSkip and WSrc are bookkeeping of the model *)
 Definition is_durable (w : write) : bool :=
-  match w with WSkip _ | WSrc _ _ => false | _ => true end.
+  match w with WSkip _ | WSrc _ _ _ => false | _ => true end.
 
 (* the prefix of a trace that contains k durable writes (with the bookkeeping entries before them) *)
 Fixpoint take_durable (k : nat) (tr : list write) : list write :=
